@@ -446,6 +446,10 @@ func (rn *Runner) MarshalCase(kind string, pv int, t *Ty, v *Val, specMonitor bo
 	}
 	if !ok {
 		rn.Stat["marshal-no-denotation"]++
+		// "formatted as base 10 number" / "value of number in decimal notation": a string that is not one must be rejected
+		if pv0 := peel(v); t.K == "native" && isIntID(t.ID) && pv0 != nil && pv0.K == "str" && !pv0.T.Named && cls == ClsOk && out != nil {
+			o.Violate(idx, "accepts-string-that-is-not-a-decimal-number", "", fmt.Sprintf("Marshal(%s, %q) returned %x instead of an error", t.String(), string(pv0.S), out), input)
+		}
 		return out, cls, idx
 	}
 	if cls == ClsErr {
